@@ -240,7 +240,7 @@ def run(ctx):
     jobs = []
     for d in docs:
         if d["id"].startswith("gen:"):
-            hs = hists if ctx.thorough else [h for h in hists if len(h) <= 2] + rng.sample([h for h in hists if len(h) == 3], 60)
+            hs = hists if ctx.thorough else [h for h in hists if len(h) <= 2] + rng.sample([h for h in hists if len(h) == 3], 200)
         else:
             hs = rng.sample(hists, 12 if not ctx.thorough else 40)
         jobs.append((d, hs))
